@@ -658,6 +658,26 @@ func c17StorageRun(r *Rng, it int, vInit, aInit []byte, viol func(kind, what str
 		checkListed(fmt.Sprintf("after round %d", k))
 	}
 	time.Sleep(80 * time.Millisecond) // the channel goroutine writes the MPD
+	if gapAt < 0 {
+		// (on a loaded machine it may take longer: wait until the MPD has caught up with the last round, at most 3 s)
+		waitFor(3*time.Second, func() bool {
+			mb, err := os.ReadFile(filepath.Join(dir, "ch", "manifest_timeline_nr.mpd"))
+			if err != nil {
+				return false
+			}
+			m, err := parseMPD(mb)
+			if err != nil || len(m.Periods) != 1 {
+				return false
+			}
+			for i := range m.Periods[0].Sets {
+				st := m.Periods[0].Sets[i].SegmentTemplate
+				if st == nil || st.StartNumber == nil || int(*st.StartNumber)+len(expandTL(st))-1 < int(seq0)+nSegs-1 {
+					return false
+				}
+			}
+			return true
+		})
+	}
 	count("receiver-storage-runs")
 	if shifted {
 		count("receiver-storage-runs.shifted")
